@@ -22,6 +22,18 @@ import (
 
 var Cancelled = errors.New("transaction cancelled")
 
+// CONNECT transaction states: which client (or broker) packet the transaction
+// is waiting for. Packets which do not belong to the current state (repeated,
+// out-of-order or unsolicited AUTH, WILLTOPIC, WILLMSG, CONNACK) are ignored.
+type connectState int
+
+const (
+	connectAwaitingAuth connectState = iota
+	connectAwaitingWillTopic
+	connectAwaitingWillMsg
+	connectAwaitingConnack
+)
+
 type connectTransaction struct {
 	*transactions.TimedTransaction
 	handler       *handler1
@@ -29,6 +41,7 @@ type connectTransaction struct {
 	authEnabled   bool
 	mqConnect     *mqPkts.ConnectPacket
 	authenticated bool
+	state         connectState
 }
 
 func newConnectTransaction(ctx context.Context, h *handler1, authEnabled bool, mqConnect *mqPkts.ConnectPacket) *connectTransaction {
@@ -69,18 +82,34 @@ func (t *connectTransaction) Start(ctx context.Context) error {
 
 	if t.authEnabled {
 		t.log.Debug("Waiting for AUTH packet.")
+		t.state = connectAwaitingAuth
 		return nil
 	}
 
+	return t.continueAfterAuth()
+}
+
+// Continue with the will prompting (if requested by the client) or with the
+// MQTT CONNECT.
+func (t *connectTransaction) continueAfterAuth() error {
 	if t.mqConnect.WillFlag {
 		// Continue with WILLTOPICREQ.
+		t.state = connectAwaitingWillTopic
 		return t.handler.snSend(snPkts1.NewWillTopicReq())
 	}
 
+	// All information successfully gathered - send MQTT connect.
+	t.state = connectAwaitingConnack
 	return t.handler.mqttSend(t.mqConnect)
 }
 
 func (t *connectTransaction) Auth(snPkt *snPkts1.Auth) error {
+	if t.state != connectAwaitingAuth {
+		// Authentication disabled, or repeated AUTH.
+		t.log.Debug("Unexpected packet in %d: %v", t.state, snPkt)
+		return nil
+	}
+
 	// Extract username and password from PLAIN data.
 	if snPkt.Method == snPkts1.AUTH_PLAIN {
 		user, password, err := snPkt.DecodePlain()
@@ -92,6 +121,7 @@ func (t *connectTransaction) Auth(snPkt *snPkts1.Auth) error {
 		t.mqConnect.Username = user
 		t.mqConnect.PasswordFlag = true
 		t.mqConnect.Password = password
+		t.authenticated = true
 	} else {
 		if err := t.SendConnack(snPkts1.RC_NOT_SUPPORTED); err != nil {
 			return err
@@ -101,32 +131,43 @@ func (t *connectTransaction) Auth(snPkt *snPkts1.Auth) error {
 		return err
 	}
 
-	if t.mqConnect.WillFlag {
-		// Continue with WILLTOPICREQ.
-		return t.handler.snSend(snPkts1.NewWillTopicReq())
-	}
-
-	// All information successfully gathered - send MQTT connect.
-	return t.handler.mqttSend(t.mqConnect)
+	return t.continueAfterAuth()
 }
 
 func (t *connectTransaction) WillTopic(snWillTopic *snPkts1.WillTopic) error {
+	if t.state != connectAwaitingWillTopic {
+		t.log.Debug("Unexpected packet in %d: %v", t.state, snWillTopic)
+		return nil
+	}
+
 	t.mqConnect.WillQos = snWillTopic.QOS
 	t.mqConnect.WillRetain = snWillTopic.Retain
 	t.mqConnect.WillTopic = snWillTopic.WillTopic
 
 	// Continue with WILLMSGREQ.
+	t.state = connectAwaitingWillMsg
 	return t.handler.snSend(snPkts1.NewWillMsgReq())
 }
 
 func (t *connectTransaction) WillMsg(snWillMsg *snPkts1.WillMsg) error {
+	if t.state != connectAwaitingWillMsg {
+		t.log.Debug("Unexpected packet in %d: %v", t.state, snWillMsg)
+		return nil
+	}
+
 	t.mqConnect.WillMessage = snWillMsg.WillMsg
 
 	// All information successfully gathered - send MQTT connect.
+	t.state = connectAwaitingConnack
 	return t.handler.mqttSend(t.mqConnect)
 }
 
 func (t *connectTransaction) Connack(mqConnack *mqPkts.ConnackPacket) error {
+	if t.state != connectAwaitingConnack {
+		t.log.Debug("Unexpected packet in %d: %v", t.state, mqConnack)
+		return nil
+	}
+
 	if mqConnack.ReturnCode != mqPkts.Accepted {
 		// We misuse RC_CONGESTION here because MQTT-SN spec v. 1.2 does not define
 		// any suitable return code.
